@@ -71,6 +71,23 @@ def call_builtin(fr, f, args: list, kwargs: dict, node: ast.AST | None) -> Any:
             return I.stubs[key](fr, f.self_obj, args, kwargs)
         short = name[10:].split(".")[-1]
         recv = f.self_obj
+        if isinstance(recv, HDict) and short in ("__setitem__", "__getitem__", "__delitem__", "__contains__"):
+            # the base class's own item access (OrderedDict.__setitem__(d, k, v)): no key folding, no default
+            k0 = args[0]
+            k0 = k0.concrete() if isinstance(k0, SStr) and k0.is_concrete() else k0
+            if isinstance(k0, SStr) and any(isinstance(x, SStr) for x in recv.keys()):
+                raise AnalysisError("raw item access with a symbolic key next to symbolic keys")
+            if short == "__setitem__":
+                dict.__setitem__(recv, k0, args[1])
+                return None
+            if short == "__contains__":
+                return dict.__contains__(recv, k0)
+            if not dict.__contains__(recv, k0):
+                raise pai.PyExc("KeyError", (k0,), node)
+            if short == "__getitem__":
+                return dict.__getitem__(recv, k0)
+            dict.__delitem__(recv, k0)
+            return None
         if isinstance(recv, HDict) or (isinstance(recv, pai.Inst) and recv.cls in pai.DICT_CLASSES):
             return call_method(fr, recv, short, args, kwargs, node)
         raise AnalysisError(f"external method {name[10:]} is not modelled ({fr.qual})")
@@ -405,6 +422,32 @@ def call_method(fr, recv: Any, name: str, args: list, kwargs: dict, node: ast.AS
                 return pai._simplify(s.replace(a, b))
             except Undecided as u:
                 raise AnalysisError(f"replace undecided: {u.descr}")
+        if name == "join" and isinstance(args[0], SObj) and args[0].pytype == "splitlines":
+            # sep.join(text.splitlines()): every line boundary of the text (\n, \r\n, \r, \v, \f, \x1c-\x1e,
+            # \x85, U+2028, U+2029) becomes sep and a final one disappears.  Piece by piece: a literal is rewritten,
+            # a piece of unknown text that may hold such a character becomes another unknown text
+            if not (isinstance(recv, str) or s.is_concrete()):
+                raise AnalysisError("symbolic separator joined with the lines of symbolic text")
+            sep = s.concrete()
+            bounds = "\n\r\x0b\x0c\x1c\x1d\x1e\x85\u2028\u2029"
+            src = args[0].attrs["src"]
+            out_j: list[Any] = []
+            n_p = len(src.pieces)
+            for i_p, pc in enumerate(src.pieces):
+                if isinstance(pc, str):
+                    parts = pc.splitlines(True)
+                    txt = "".join((ln.rstrip(bounds) + sep) if ln != ln.rstrip(bounds) else ln for ln in parts)
+                    if i_p == n_p - 1 and pc != pc.rstrip(bounds):
+                        txt = txt[: len(txt) - len(sep)]
+                    out_j.append(txt)
+                elif isinstance(pc, av.Atom):
+                    if all(c in pc.excludes for c in bounds) and (i_p < n_p - 1 or True):
+                        out_j.append(pc)
+                    else:
+                        out_j.append(pc.with_op(("relinebreak", sep)))
+                else:
+                    raise AnalysisError("lines of a repeated symbolic text")
+            return pai._simplify(SStr(out_j))
         if name == "join":
             items = fr.iterate(args[0])
             out: list[Any] = []
@@ -491,6 +534,9 @@ def call_method(fr, recv: Any, name: str, args: list, kwargs: dict, node: ast.AS
             return pai._simplify(s.slice(None, -len(arg))) if I.decide(lambda: s.endswith(arg), f"{s.describe()}.endswith({arg!r})") else recv
         if name in ("partition", "rpartition", "find", "rfind", "index", "title", "zfill", "center", "ljust", "rjust", "expandtabs", "splitlines") and s.is_concrete():
             return getattr(s.concrete(), name)(*[_c(a) if isinstance(a, (str, SStr)) else a for a in args])
+        if name == "splitlines" and not args and not kwargs:
+            # the lines of text that is not known: only re-joining them is supported (see join)
+            return SObj("splitlines", {"src": s})
         if name == "encode":
             return SOpaque("bytes")
         if name == "count" and s.is_concrete():
